@@ -1718,15 +1718,12 @@ KNOWN_UNMARKED = {
     "callable:preamble": "F9a",
     "callable:preamble-strict": "F9a",
     "callable:preamble-namespace": "F9a",
-    "callable:decorator": "F9b",         # decorator line written before start_source
     "stub:header": "F9b", "stub:call": "F9b",
-    "inline-def:header": "F9b", "inline-def:decorator": "F9b", "inline-def:preamble": "F9b",
-    "inline-def:preamble-strict": "F9b",
     "visitBlockTag:call": "F9b",
-    "visitCallTag:ccall-header": "F9b", "visitCallTag:body-header": "F9b", "visitCallTag:nextcaller": "F9b",
+    # declaration lines written after an inline def of the same preamble (no re-mark after it)
+    "inline-def:preamble": "F9b", "inline-def:preamble-strict": "F9b",
     "visitCallTag:preamble-strict": "F9b", "visitCallTag:other": "F9b",
-    "epilogue-filtered": "F9b", "cache-wrapper": "F9b", "inherit": "F9b",
-    "visitTextTag:filter": "F9b", "visitTextTag:other": "F9b",
+    "cache-wrapper": "F9b",
     "namespace": "F9b",                  # lines of a namespace written after an inline def of the namespace
 }
 
@@ -2069,30 +2066,30 @@ def items_of_recording(rec):
                 ret_obs = False
                 if not p["plain"]:
                     ret_obs = not is_inert(last_w[-1] if p["returns"] else last_w[-2])
-                items.append("finish:%d:%s:%s:%s:%s" % (o, b01(p["plain"]), b01(p["callstack"]), b01(p["returns"]),
-                                                        b01(ret_obs)))
+                items.append("finish:%d:%s:%s:%s:%s:%s" % (o, b01(p["plain"]), b01(p["callstack"]), b01(p["returns"]),
+                                                           b01(ret_obs), b01(events[ds[0]][0][0] == "S")))
             continue
         head = tail = 0
         head_item = tail_item = None
         if kind == "callable":
             head = int(p["decorated"]) + 4 + int(p["pushBuf"])
-            hdr = events[ds[int(p["decorated"]) + 1]][2]
+            hdr = events[ds[int(p["decorated"]) + 1]][2]      # start_source, [decorator], def ...
             head_item = "chead:%d:%d:%s:%s:%s" % (o, p["lineArg"], b01(p["decorated"]), b01(not is_inert(hdr)), b01(p["pushBuf"]))
             tail, tail_item = 2, "ctail"
         elif kind == "inline-def":
-            head = int(p["decorated"]) + 3 + int(p["pushBuf"])
-            hdr = events[ds[int(p["decorated"])]][2]
+            head = 1 + int(p["decorated"]) + 3 + int(p["pushBuf"])
+            hdr = events[ds[1 + int(p["decorated"])]][2]
             head_item = "ihead:%d:%s:%s:%s" % (o, b01(p["decorated"]), b01(not is_inert(hdr)), b01(p["pushBuf"]))
             tail, tail_item = 1, "itail"
         elif kind == "visitCallTag":
-            head, head_item = 1, "callhead"
-            tail, tail_item = 10, "calltail:%d" % o
+            head, head_item = 2, "callhead:%d" % o
+            tail, tail_item = 11, "calltail:%d" % o
         elif kind == "visitTextTag" and p["filtered"]:
             head, head_item = 2, "tthead"
-            tail, tail_item = 4, "tttail:%d" % o
+            tail, tail_item = 5, "tttail:%d" % o
         elif kind == "cache-wrapper":
-            head = 2
-            head_item = "cachehead:%d:%s" % (o, b01(not is_inert(events[ds[1]][2])))
+            head = 3
+            head_item = "cachehead:%d:%s" % (o, b01(not is_inert(events[ds[2]][2])))
             tail = 2 if p["buffered"] else 3
             tail_item = "cachetail:%d:%s" % (o, b01(p["buffered"]))
         n = len(ds)
